@@ -20,7 +20,7 @@ CLAIMS = {
     'C07': ('model_checking',
             'TLA+ definition of wall-clock resolution (TzSem.tla: Cands/Allowed) checked by TLC (total, normalised at every breakpoint); trace validation of run-length traces of the real ZonedDateTime::forComponents over windows of wall time',
             'TLC derives, from the walk of each zone, which <<shift, offset>> resolutions are allowed for a wall time (unique: that occurrence; overlap: the later one for Extended, either for Basic; gap: the offset before the gap) and checks the recorded run-length trace of forComponents() at the start of every recorded piece and at every wall-time breakpoint inside it; the harness sweeps every wall minute within +-200 min of every transition plus seeded random minutes (quick) or every wall minute of 2000..2049 (thorough), bisects result changes to the second and checks normalisation natively for every call.',
-            'Trusted: zic pieces only select the windows (the verdict is TLC\'s on the spec\'s own pieces, which C01/C02 validate against zic); wall times within 16 h of the ends of the range are out of scope.',
+            'Trusted: zic pieces only select the windows (the verdict is TLC\'s on the spec\'s own pieces, which C01/C02 validate against zic); local date-times of the whole years 2000..2049 are covered (the model keeps walking two days beyond either end).',
             '§4.3, §6-C07'),
     'C08': ('model_checking',
             'TLA+ state machine of the processor cache (ZoneProc.tla) checked exhaustively by TLC; every model transition replayed into the real classes (ASan+UBSan build) with answer and projected state compared; random call histories recorded from the real code validated by ZoneProc_Trace.tla',
